@@ -75,9 +75,16 @@ class G:
             if r < 15:
                 n1 = self.pick([1, 2, -1, 3, 5, -4])
                 n0 = self.pick([0, 1, -3, 10, 100])
-                compu = {"c": "LINEAR", "n0": n0, "n1": n1, "d": 1}
+                d = self.pick([1, 1, 1, 2, 4]) if self.opts.get("linear_int_denominator", True) else 1
+                from vlib.refcodec import int_range
+                lo_, hi_ = int_range(dct["bt"], dct.get("enc"), dct["bl"])
+                if d > 1 and not any((n0 + n1 * i) % d == 0 for i in range(lo_, min(hi_, lo_ + d - 1) + 1)):
+                    d = 1       # no internal value has an integral image
+                compu = {"c": "LINEAR", "n0": n0, "n1": n1, "d": d}
                 pt = "A_INT32"
                 self.features.add("compu:LINEAR")
+                if d > 1:
+                    self.features.add("compu:LINEAR-int-denominator")
             elif r < 22:
                 compu = {"c": "LINEAR", "n0": self.pick([0, 1, -5]), "n1": self.pick([1, 3, -1]),
                          "d": self.pick([2, 4, 8])}
@@ -131,6 +138,16 @@ class G:
             if c["c"] == "TEXTTABLE":
                 return self.pick([r[2] for r in c["rows"]])
             i = self.int_value(dct)
+            if c["c"] == "LINEAR" and c["d"] > 1 and dop["pt"] in refcodec.INT_TYPES:
+                # an integer physical type: only internal values with an integral image are exact
+                lo_, hi_ = refcodec.int_range(dct["bt"], dct.get("enc"), dct["bl"])
+                for delta in range(0, 2 * c["d"] + 1):
+                    j = next((x for x in (i + delta, i - delta) if lo_ <= x <= hi_ and (c["n0"] + c["n1"] * x) % c["d"] == 0), None)
+                    if j is not None:
+                        i = j
+                        break
+                else:
+                    i = next(x for x in range(lo_, min(hi_, lo_ + c["d"] - 1) + 1) if (c["n0"] + c["n1"] * x) % c["d"] == 0)
             if i < 0:
                 self.features.add("negative")
             return refcodec.i2p(dop, i)
